@@ -401,7 +401,7 @@ def _cross_connection_probe(s, g, r):
 
 def _must_refuse(m):
     """the repaired handlers' duty, read off the message we are about to send: HANDLE_DEL with a count that is not an
-    exact int, HANDLE_CALL / HANDLE_CALLATTR with args or kwargs that are not exact tuples -> (why, ) or None"""
+    exact int >= 1, HANDLE_CALL / HANDLE_CALLATTR with args or kwargs that are not exact tuples -> (why, ) or None"""
     try:
         msg, _seq, raw = m
         if type(msg) is not int or msg != 1 or type(raw) is not tuple or len(raw) != 2:
@@ -420,8 +420,8 @@ def _must_refuse(m):
     if h == 15 and len(items) == 2:
         c = items[1]
         if type(c) is tuple and len(c) == 2 and type(c[0]) is int:
-            if (c[0] == 1 and type(c[1]) is not int) or c[0] in (2, 3, 4):
-                return "HANDLE_DEL with a count that is not an int"
+            if (c[0] == 1 and (type(c[1]) is not int or c[1] < 1)) or c[0] in (2, 3, 4):
+                return "HANDLE_DEL with a count that is not a positive int"
     pos = {7: (1, 2), 8: (2, 3)}.get(h)
     if pos and len(items) in (pos[0] + 1, pos[1] + 1):
         for k in pos:
